@@ -95,13 +95,15 @@ type Worker struct {
 func (it *Interp) take(c *smt.Term, d dec) {
 	p := it.P
 	p.Decs = append(p.Decs, d)
-	if d.choice || d.forced {
+	if d.choice {
 		return
 	}
 	t := c
 	if !d.taken {
 		t = it.C.Not(c)
 	}
+	// forced decisions are implied by the path condition; they are kept as lemmas (cheap for the
+	// solver, and the interval pre-solver learns bounds from them)
 	it.addPC(t)
 }
 
@@ -323,6 +325,11 @@ func (it *Interp) Assert(label string, c *smt.Term) {
 	it.M.knownCond = nil
 	knownID := it.M.knownID
 	it.M.knownID = ""
+	if v, ok := it.decideByRanges(c); ok && v { // implied by interval reasoning (models_ranges.go)
+		it.jr.Discharged++
+		it.addPC(c)
+		return
+	}
 	neg := it.C.Not(c)
 	if known != nil && it.L.OpenFindings[knownID] {
 		// open finding: must hold outside the known condition
@@ -361,6 +368,8 @@ func (it *Interp) Assert(label string, c *smt.Term) {
 		it.S.Pop()
 	default:
 		it.jr.Discharged++
+		it.addPC(c) // PC implies c: no feasibility query needed
+		return
 	}
 	// continue under the assumption that it held
 	it.Assume(c)
